@@ -27,7 +27,7 @@ RULE = (
     "domain boundary (0, MAX_FREQUENCY)."
 )
 TECHNIQUE = 'property-based testing: mutation-of-valid generator + independent reference validator (accept iff valid, both directions) through 4 entry points; coverage-guided fuzzing (atheris) of the same property in the thorough tier'
-LEVEL_TEXT = 'Differential test of the nine geometry validators against a reference predicate written from the statement, over valid structures and 0-2 structural/numeric mutations, through constructor, dict, attribute-object and JSON-text modes; normal form, class identity and JSON re-validation checked on every accepted object. Exploration.'
+LEVEL_TEXT = 'Differential test of the nine geometry validators against a reference predicate written from the statement, over valid structures and 0-2 structural/numeric mutations, through constructor, dict, attribute-object and JSON-text modes and through a SoundEvent field typed with the Geometry union (dict and JSON); normal form, class identity and JSON re-validation checked on every accepted object. Exploration.'
 LEVEL_NOTE = 'trusts the reference validator (shape, t>=0, 0<=f<=MAX, per-type rules); inputs restricted to JSON-able lists of finite ints/floats'
 ASSUMPTIONS = [
     "inputs are JSON-able structures of lists and finite ints/floats (bools, strings, NaN/inf are outside 'numeric coordinate structure')",
@@ -216,6 +216,15 @@ def mutated_geometry(draw):
     return {"type": kind, "coordinates": c, "base": base["type"], "muts": muts}
 
 
+_REC = {}
+
+
+def _recording(data):
+    if "r" not in _REC:
+        _REC["r"] = data.Recording(uuid="00000000-0000-0000-0000-000000000001", path="r.wav", duration=1.0, channels=1, samplerate=8000)
+    return _REC["r"]
+
+
 def _ctor(data, kind):
     return getattr(data, kind)
 
@@ -276,6 +285,21 @@ def check(spec, ctx):
             ok2 = results[name]
         if ok2 != results[name] or (ok2 and second != objs[name]):
             ctx.fail(f"validating the same {name} object twice gives different results ({results[name]} then {ok2})", spec, [results[name], ok2], None, kind="not_repeatable")
+
+    # 5. through a model field typed with the Geometry union (a sound event built from plain data)
+    rec = _recording(data)
+    for name, build in (
+        ("field_dict", lambda: data.SoundEvent.model_validate({"geometry": copy.deepcopy(d), "recording": rec}).geometry),
+        ("field_json", lambda: data.SoundEvent.model_validate_json(json.dumps({"geometry": d, "recording": json.loads(rec.model_dump_json())})).geometry),
+    ):
+        try:
+            objs[name] = build()
+            results[name] = objs[name] is not None
+        except pydantic.ValidationError:
+            results[name] = False
+        except Exception as e:
+            ctx.fail(f"SoundEvent(geometry=...) via {name} raised {type(e).__name__}: {e}", spec, repr(e), "ValidationError", kind="wrong_exception")
+            results[name] = False
 
     for name, ok in results.items():
         if ok and not exp:
